@@ -40,10 +40,12 @@ JOBS = {'quick': 8}
 
 
 def ncases(tier):
-    return N[tier]
+    return N[tier] + 1
 
 
 def gen(rng, idx, tier, seed):
+    if idx >= N[tier]:
+        return {'sample': True}
     spec = refbpch.gen_spec(rng)
     if idx % 6 == 5 and len(spec['tracers']) >= 2:
         # an interior time block carries another tracer of the same shape in
@@ -195,7 +197,95 @@ def run_irregular(spec, res):
                  problems=problems[:10], slot=spec['irregular']['slot'])
 
 
+def parse_tables(tpath, dpath):
+    """independent fixed-column parser of tracerinfo.dat / diaginfo.dat ->
+    ({tracer number: (name, scale, unit)}, {category: offset})"""
+    rows, offs = {}, {}
+    for line in open(tpath):
+        if line.startswith('#') or not line.strip():
+            continue
+        # A8,1X,A30,E10.0,I3,I9,E10.3,1X,A40
+        num = int(line[52:61])
+        if num not in rows:
+            rows[num] = (line[0:8].strip(), float(line[61:71]),
+                         line[72:].strip())
+    for line in open(dpath):
+        if line.startswith('#') or not line.strip():
+            continue
+        offs[line[9:49].strip()] = int(line[0:8])
+    return rows, offs
+
+
+def run_sample(spec, res):
+    """the sample bpch file bundled with the library, judged against the
+    independent decoder and an independent reading of its tables"""
+    from PseudoNetCDF.geoschemfiles import bpch1, bpch2
+    from PseudoNetCDF.pncgen import pncgen
+    from PseudoNetCDF.testcase import geoschemfiles_paths
+    path = geoschemfiles_paths['bpch']
+    tdir = os.path.dirname(path)
+    img = open(path, 'rb').read()
+    dec = refbpch.decode(img)
+    rows, offs = parse_tables(os.path.join(tdir, 'tracerinfo.dat'),
+                              os.path.join(tdir, 'diaginfo.dat'))
+    exp = {}
+    for b in dec['blocks']:
+        num = offs.get(b['category'], 0) + b['tracerid']
+        if num not in rows:
+            continue
+        name, scale, unit = rows[num]
+        e = exp.setdefault('%s_%s' % (b['category'], name),
+                           {'raw': [], 'scale': scale, 'unit': unit})
+        e['raw'].append(b['data'])
+    problems = []
+    try:
+        fs = bpch1(path)
+        fr = bpch1(path, noscale=True)
+        f2 = bpch2(path)
+        res.hook('bpch1.return', 2)
+        res.hook('bpch2.return')
+        keys = list(fs.variables.keys())
+        for k, e in exp.items():
+            res.hook('oracle.compare')
+            raw = np.stack(e['raw'], 0)
+            if k not in keys:
+                problems.append('sample: %s not exposed' % k)
+                continue
+            for f, sc, who in ((fs, e['scale'], 'scaled'),
+                               (fr, 1.0, 'noscale'), (f2, e['scale'],
+                                                      'bpch2')):
+                if k not in f.variables.keys():
+                    problems.append('sample %s: %s not exposed' % (who, k))
+                    continue
+                got = np.asarray(f.variables[k][...])
+                if got.shape != raw.shape or not np.allclose(
+                        got.astype('f8'), raw.astype('f8') * sc,
+                        rtol=4 * np.finfo('f4').eps, atol=0):
+                    problems.append('sample %s: %s is not raw x %g'
+                                    % (who, k, sc))
+            if str(getattr(fs.variables[k], 'units', '')).strip() != \
+                    e['unit']:
+                problems.append('sample: %s units %r, table says %r' % (
+                    k, getattr(fs.variables[k], 'units', None), e['unit']))
+        with harness.casedir() as d:
+            out = os.path.join(d, 'out.bpch')
+            o = pncgen(fr, out, format='bpch', verbose=0)
+            o.close()
+            res.hook('writer.return')
+            if open(out, 'rb').read() != img:
+                problems.append('sample: read(noscale) -> write differs '
+                                'from the sample bytes')
+    except Exception as e:
+        problems.append('sample raised %r' % (e,))
+    res.ev(digest(spec), True, ['sample', 'ntracers:%d' % len(exp)])
+    if problems:
+        res.viol('bpch-law-broken:sample', '; '.join(problems[:5]),
+                 problems=problems[:10])
+
+
 def run(spec, res):
+    if spec.get('sample'):
+        return run_sample(spec, res)
     if spec.get('irregular'):
         return run_irregular(spec, res)
     from PseudoNetCDF.geoschemfiles import bpch1, bpch2
